@@ -91,7 +91,7 @@ PROPS = {
         level='proof',
         verus=['edit_distance', 'merged_dictionary'],
         kani_quick=[], kani_thorough=[],
-        rac=['fuzzy_backends', 'edit_distance_long'],
+        rac=['fuzzy_backends', 'merged_union', 'edit_distance_long'],
         unverified=[
             'agreement of the FST and mutable back-ends; MergedDictionary *_str variants (contains_exact_word_str delegates to contains_word: visible by reading, not decided), fuzzy_match merging, words_iter, word_count, get_word_from_id; fuzzy-search completeness, ordering and caps (fst / levenshtein_automata / hashbrown / itertools code)',
             'strings longer than 254 chars: edit_distance_min_alloc is proved only under that precondition; at 255 its u8 rows overflow, above 255 it indexes out of bounds (D5); call sites (MutableDictionary::fuzzy_match, WithinEditDistance::matches) are not under contract',
@@ -109,6 +109,73 @@ PROPS = {
             'condense_number_suffixes (merging <number><suffix-word>) and CorrectNumberSuffix::lint iteration (paste!-generated iter_numbers); "after which nothing is reported" (needs re-lexing)',
         ],
         assumptions=['Kani: 64-bit target, IEEE-754 floats as modelled by CBMC; solver kissat for the 2^53 harness'],
+    ),
+    # ---- properties whose contract is expressible but whose code no verifier here reaches: BOUNDED runtime checks of
+    # the function contract only (level exploration); nothing below counts as proved ----
+    'C11': dict(
+        level='exploration', verus=[], kani_quick=[], kani_thorough=[],
+        rac=['rule_switches', 'wasm_api'],
+        unverified=[
+            'BOUNDED ONLY, nothing proved: LintGroupConfig is a BTreeMap<String, Option<bool>> (vstd has no ordering axioms for String; a two-key Kani harness of merge_from ran CBMC out of memory after 23 min - measured), LintGroup::lint iterates BTreeMap<String, Box<dyn Linter>> and an LruCache',
+            'the harper-ls call site that wraps lint with a temporary fill_with_curated (generate_diagnostics) and Config::from_lsp_config; the harper-wasm call site is exercised by one scripted sequence only (rac:wasm_api clause e)',
+            'texts outside the sampled rule-test sentences; configurations beyond the stated enumeration',
+        ],
+        assumptions=['lint lists are compared as multisets of Debug renderings (the property speaks of "the combination", not of an order)'],
+    ),
+    'C14': dict(
+        level='exploration', verus=[], kani_quick=[], kani_thorough=[],
+        rac=['ignored_lints'],
+        unverified=[
+            'BOUNDED ONLY, nothing proved: the contract of ignore_lint / is_ignored / remove_ignored rests on DefaultHasher over a derived Hash (collision-freedom cannot be a theorem), hashbrown and Vec::retain',
+            'the language-server command and the harper-wasm export/import wrappers; edits other than inserting a paragraph before / appending one after the text',
+        ],
+        assumptions=['"differs in message, kind, suggestions or surrounding words" is read as: a lint hidden together with the ignored one must agree with it in kind, message, suggestions and flagged text'],
+    ),
+    'C06': dict(
+        level='exploration', verus=[], kani_quick=[], kani_thorough=[],
+        rac=['spell_check'],
+        unverified=[
+            'BOUNDED ONLY, nothing proved: a statement about ~130k data-derived entries reached through 64-bit hash ids, hashbrown and an FST',
+            'entries the plain-English lexer does not read as one Word token (hyphenated, dotted, with digits or apostrophes handled by condensing passes) are outside the check; dialects other than American and British; random sentence positions (one fixed carrier sentence); the quick tier visits every 4th entry per dialect, the thorough tier all',
+            'suggestion quality (only membership and dialect of each suggestion are checked, on every 40th entry mutated)',
+        ],
+        assumptions=['Dictionary::words_iter of FstDictionary::curated() is the ground-truth word list (as the property says)'],
+    ),
+    'C12': dict(
+        level='exploration', verus=[], kani_quick=[], kani_thorough=[],
+        rac=['paragraph_independence'],
+        unverified=[
+            'BOUNDED ONLY, nothing proved: relational two-run contract of the entire parse + rule pipeline (~290 rule bodies)',
+            'first paragraphs and continuations other than the sampled rule-test sentences; front-ends other than plain English; first paragraphs spanning several lines',
+        ],
+        assumptions=['lint lists are compared as multisets of Debug renderings after shifting'],
+    ),
+    'C16': dict(
+        level='exploration', verus=[], kani_quick=[], kani_thorough=[],
+        rac=['wasm_api'],
+        unverified=[
+            'BOUNDED ONLY, nothing proved: histories over the wasm_bindgen object; its decidable kernels Suggestion::apply (C03) and remove_overlaps (C13) are proved under those properties',
+            'call sequences other than the scripted ones (lint -> apply_suggestion* -> ignore -> export/clear/import per text; one words sequence; one configuration sequence); dialects other than American; the JsValue-based methods (summarize_stats, *_as_object) cannot run natively',
+        ],
+        assumptions=['harper-wasm is compiled natively as an rlib (as the property says); Lint equality is equality of to_json()'],
+    ),
+    'C18': dict(
+        level='exploration', verus=[], kani_quick=[], kani_thorough=[],
+        rac=['title_case', 'wasm_api'],
+        unverified=[
+            'BOUNDED ONLY, nothing proved: make_title_case is peekable()/enumerate()/iter_mut() code over a parsed Document and dictionary data (canonical capitalisation looked up by 64-bit hash)',
+            'whole texts through front-ends other than plain English (the Markdown front-end drops markup, so "same length" is demanded of the token span only: clause e); harper-wasm to_title_case on six texts only; the IsNotTitleCase pattern itself (its calls of make_title_case on token sub-slices are covered by clause e)',
+        ],
+        assumptions=['curated dictionary; single-paragraph texts as in the property quantifier'],
+    ),
+    'C19': dict(
+        level='exploration', verus=[], kani_quick=[], kani_thorough=[],
+        rac=['stats_roundtrip'],
+        unverified=[
+            'BOUNDED ONLY, nothing proved: the log format is serde_json (derived Serialize/Deserialize) + BufRead::lines, both external to Harper; Summary counts live in std HashMap',
+            'the append-mode file handling in harper-ls save_stats and harper-wasm import_stats_file; misspelled-word tallies and final_config of the summary (not part of the property statement)',
+        ],
+        assumptions=['records are compared with the derived PartialEq (floats bitwise through OrderedFloat)'],
     ),
 }
 for _p in PROPS.values():
